@@ -9,7 +9,7 @@ import re
 
 import templates as T
 import panic as PN
-from facts import fmt as _fmt
+from facts import fmt as _fmt, tokens
 
 
 def FX_fmt(o):
@@ -115,6 +115,7 @@ def _short(p):
 
 def run(F, R, tier, cfg):
     expiry_sibling_rule(F, R)
+    reverse_index_sibling_rule(F, R)
     fa = T.FA(F)
     refs, byval = fa_instances(F)
     for p in refs:
@@ -187,3 +188,70 @@ def lane_contract(F, R):
                             "index in the helper can panic" % (c.decl.split("::")[-1], FX_fmt(o)), c.span.loc,
                             {"fn": p, "range_origin": FX_fmt(o), "bit_range": br})
     R.floor("LANE", n, LANE_FLOOR, "calls of unchecked_bit_range_be_read/write in the C12 call graph")
+
+
+REV_MODEL = "sciparse::proto::dataplane_path::standard::model::StandardPath::try_reverse"
+REV_VIEW = "sciparse::proto::dataplane_path::standard::view::StandardPathView::try_reverse"
+
+
+def _plain(t):
+    t = PN.strip_casts(t)
+    if t[0] == "field" and t[2] == "0" and isinstance(t[1], tuple) and t[1][0] == "bin" and t[1][1].endswith("WithOverflow"):
+        t = ("bin", t[1][1].replace("WithOverflow", ""), t[1][2], t[1][3])
+    return t
+
+
+def _mirror(t, cur_tokens):
+    """t == (N - cur) - 1 with cur naming the current index; returns description or None"""
+    t = _plain(t)
+    if t[0] == "bin" and t[1].startswith("Sub") and PN.const_eval(t[3]) == 1:
+        inner = _plain(t[2])
+        if inner[0] == "bin" and inner[1].startswith("Sub"):
+            tk = tokens(inner[3])
+            if any(c in tk or any(x.endswith(c) for x in tk) for c in cur_tokens):
+                return "(%s - current) - 1" % _fmt(inner[2], 50)
+    return None
+
+
+def reverse_index_sibling_rule(F, R):
+    """SIB-reverse-index: "reversal preserves the logical position" on view and model alike: after reversing, both set
+    current hop index = (total hops - current hop) - 1 and current info index = (segment count - current info) - 1.
+    Decided structurally on the value each sibling stores; a sibling that derives one index differently (e.g. from the hop
+    index) agrees with the other only on well-formed positions."""
+    from facts import strip_sites
+    n = 0
+    found = {}
+    b = F.body(REV_MODEL)
+    if b is None:
+        R.anchor_missing(REV_MODEL)
+    else:
+        R.fn(REV_MODEL)
+        for bb in sorted(b.live_blocks()):
+            for st in b.stmts(bb):
+                if st[0] == "=" and st[1][1] and isinstance(st[1][1][-1], list) and st[1][1][-1][0] == "f" and st[1][1][-1][2] in ("current_hop_field", "current_info_field"):
+                    fld = st[1][1][-1][2]
+                    o = strip_sites(b._rvalue_origin(st[2], 40, None))
+                    found[("model", fld)] = (_mirror(o, ["field:" + fld]), _fmt(o, 100), b.span_of(st[3]).loc)
+    b = F.body(REV_VIEW)
+    if b is None:
+        R.anchor_missing(REV_VIEW)
+    else:
+        R.fn(REV_VIEW)
+        for c in b.calls:
+            if c.indirect or c.bb not in b.live_blocks():
+                continue
+            m = re.search(r"::set_curr_(hop|info)_field$", c.decl)
+            if m:
+                o = strip_sites(b.origin(c.args[1]))
+                cur = "::curr_%s_field_idx" % m.group(1)
+                found[("view", "current_%s_field" % m.group(1))] = (_mirror(o, [cur]), _fmt(o, 100), c.span.loc)
+    for key in (("model", "current_hop_field"), ("model", "current_info_field"), ("view", "current_hop_field"), ("view", "current_info_field")):
+        n += 1
+        how, txt, loc = found.get(key, (None, "assignment not found", None))
+        ok = how is not None
+        R.ob("SIB-reverse-index", "%s try_reverse: new %s = %s" % (key[0], key[1], how or txt), ok, True,
+             {"rule": "SIB-reverse-index", "sibling": key[0], "index": key[1], "value": txt, "holds": ok})
+        if not ok:
+            R.violation("SIB-reverse-index", "%s/%s" % key, "%s try_reverse does not mirror %s as (count - current) - 1 (%s): view and model disagree on the "
+                        "position after reversal for some paths" % (key[0], key[1], txt), loc)
+    R.floor("SIB-reverse-index", len(found), 4, "index updates in StandardPath::try_reverse and StandardPathView::try_reverse")
